@@ -311,7 +311,9 @@ func (g *FnGen) execIterCall(s *State, ins ssa.Instruction, res ssa.Value, fc *F
 		if p.ghost != "" {
 			ghosts[p.ghost] = true
 		} else {
-			g.cellSorts(p.typ, heapSorts)
+			if !p.newobj {
+				g.cellSorts(p.typ, heapSorts)
+			}
 		}
 	}
 	nx := g.fresh("next_it", "Int")
